@@ -29,7 +29,7 @@ def prop_module(name: str):
     return importlib.import_module(f'vsched.props.{name.lower()}')
 
 
-DEFAULT_CFG = dict(horizon=25.0, window=2.0, max_targets=6, busy=True, spin_collapse=2, bound=2, cap=20000,
+DEFAULT_CFG = dict(max_points=600, horizon=25.0, window=2.0, max_targets=6, busy=True, spin_collapse=2, bound=2, cap=20000,
                    free=(), max_iters=60000)
 
 
@@ -46,7 +46,7 @@ def run_one(spec, prefix=(), expect=None, keep_world=False):
     cfg = cfg_of(spec)
     mod = prop_module(spec['prop'])
     seams.reset_globals()
-    ch = Chooser(prefix, expect)
+    ch = Chooser(prefix, expect, cfg['max_points'])
     loop = VLoop(ch, horizon=cfg['horizon'], window=cfg['window'], max_targets=cfg['max_targets'], busy=cfg['busy'],
                  max_iters=cfg['max_iters'], spin_collapse=cfg['spin_collapse'])
     ctx = contextvars.Context()
@@ -95,6 +95,7 @@ def run_one(spec, prefix=(), expect=None, keep_world=False):
     out['taken'] = ch.taken
     out['sched'] = loop.sched_trace
     out['collapsed'] = loop.collapsed
+    out['truncated'] = ch.truncated
     out['iters'] = loop.iters
     out['vtime'] = loop.now()
     if keep_world:
@@ -156,7 +157,7 @@ def explore_scenario(spec, classify=None, max_viol=3):
     t0 = time.time()
     summ = dict(id=spec['id'], family=spec['family'], executions=0, points=0, transitions=0, levels=[], capped=False,
                 completed_level=-1, violations=[], n_violations=0, traces=set(), triggered=0, verdicts={},
-                collapsed=0, sample=None, errors=[], known={}, clauses={})
+                collapsed=0, truncated=0, sample=None, errors=[], known={}, clauses={})
     level = [((), None)]
     L = 0
     n_exec = 0
@@ -186,6 +187,7 @@ def explore_scenario(spec, classify=None, max_viol=3):
             pts, taken = out['points'], out['taken']
             summ['points'] += max(0, len(pts) - len(prefix))
             summ['collapsed'] += out['collapsed']
+            summ['truncated'] += 1 if out['truncated'] else 0
             v = out['verdict'][0]
             summ['verdicts'][v] = summ['verdicts'].get(v, 0) + 1
             try:
@@ -240,7 +242,7 @@ def explore_scenario(spec, classify=None, max_viol=3):
                 if L + c > bound:
                     continue
                 for alt in range(1, n):
-                    child = (tuple(taken[:j]) + (alt,), pts[: j + 1])
+                    child = (tuple(taken[:j]) + (alt,), pts)
                     (level if c == 0 else nxt).append(child)
         summ['levels'].append(lvl_exec)
         if summ['capped']:
